@@ -1336,46 +1336,7 @@ func (d *DFA) determinize(cache *DFACache, current *State, b byte) (*State, erro
 	// The actual byte value is still used for NFA move operations
 	classIdx := d.byteToClass(b)
 
-	// Look-ahead re-computation (Rust determinize mod.rs:131-212):
-	// Before checking for matches, resolve look-ahead assertions that depend
-	// on the current input byte. When input is '\n', EndLine ($) is satisfied
-	// for the CURRENT state, unlocking paths through $ assertions.
-	// This re-runs epsilon closure on the current state's NFA IDs with the
-	// new look-ahead, potentially adding Match states behind $ assertions.
-	currentNFAStates := current.NFAStates()
-	lookAhead := LookNone
-	if d.hasEndLine && b == '\n' {
-		lookAhead |= LookEndLine
-	}
-	// Word boundaries are look-ahead too: \b / \B pending in the current state are
-	// decided by (isFromWord, b). Resolving them here (in priority order) lets a
-	// Match behind \b/\B use the same 1-byte match delay and break-at-match logic
-	// as every other match instead of being reported out of priority order.
-	if d.hasWordBoundary {
-		if current.IsFromWord() != isWordByte(b) {
-			lookAhead |= LookWordBoundary
-		} else {
-			lookAhead |= LookNoWordBoundary
-		}
-	}
-	if lookAhead != LookNone {
-		currentNFAStates = builder.epsilonClosure(currentNFAStates, lookAhead)
-	}
-
-	// 1-byte match delay (Rust determinize mod.rs:254-286):
-	// Check if source (current) state's NFA states contain a match state.
-	// The NEW DFA state will be tagged as match if the OLD state had NFA match.
-	// This delays match reporting by 1 byte, enabling correct look-around (^, $, \b).
-	sourceHasMatch := builder.containsMatchState(currentNFAStates)
-
-	// Compute next NFA state set via move operation WITH word context.
-	// Leftmost-first (Rust determinize::next mod.rs:284):
-	// When source has NFA match AND BreakAtMatch is enabled, stop iterating
-	// at the first Match state. States after Match (prefix restarts) are not
-	// processed, causing the DFA to reach dead state with the committed match.
-	// BreakAtMatch is disabled for reverse DFAs to allow finding leftmost start.
-	breakAtMatch := sourceHasMatch && d.config.BreakAtMatch
-	nextNFAStates := builder.moveWithWordContextBreak(currentNFAStates, b, current.IsFromWord(), breakAtMatch)
+	nextNFAStates, sourceHasMatch := d.nfaStep(builder, current.NFAStates(), current.IsFromWord(), b)
 
 	isMatch := sourceHasMatch
 
@@ -1466,6 +1427,54 @@ func (d *DFA) determinize(cache *DFACache, current *State, b byte) (*State, erro
 	cache.SetFlatTransition(current.id, int(classIdx), newState.ID())
 
 	return newState, nil
+}
+
+// nfaStep is the NFA-level part of determinize: one subset-construction step from
+// the NFA state set nfaStates (entered with word context isFromWord) on byte b.
+// It returns the next NFA state set and whether the source set contains a match
+// (which, with the 1-byte match delay, is the match flag of the next state).
+// It does not touch the cache, so the uncached NFA fallbacks share it.
+func (d *DFA) nfaStep(builder *Builder, nfaStates []nfa.StateID, isFromWord bool, b byte) ([]nfa.StateID, bool) {
+	// Look-ahead re-computation (Rust determinize mod.rs:131-212):
+	// Before checking for matches, resolve look-ahead assertions that depend
+	// on the current input byte. When input is '\n', EndLine ($) is satisfied
+	// for the CURRENT state, unlocking paths through $ assertions.
+	// This re-runs epsilon closure on the current state's NFA IDs with the
+	// new look-ahead, potentially adding Match states behind $ assertions.
+	currentNFAStates := nfaStates
+	lookAhead := LookNone
+	if d.hasEndLine && b == '\n' {
+		lookAhead |= LookEndLine
+	}
+	// Word boundaries are look-ahead too: \b / \B pending in the current state are
+	// decided by (isFromWord, b). Resolving them here (in priority order) lets a
+	// Match behind \b/\B use the same 1-byte match delay and break-at-match logic
+	// as every other match instead of being reported out of priority order.
+	if d.hasWordBoundary {
+		if isFromWord != isWordByte(b) {
+			lookAhead |= LookWordBoundary
+		} else {
+			lookAhead |= LookNoWordBoundary
+		}
+	}
+	if lookAhead != LookNone {
+		currentNFAStates = builder.epsilonClosure(currentNFAStates, lookAhead)
+	}
+
+	// 1-byte match delay (Rust determinize mod.rs:254-286):
+	// Check if source (current) state's NFA states contain a match state.
+	// The NEW DFA state will be tagged as match if the OLD state had NFA match.
+	// This delays match reporting by 1 byte, enabling correct look-around (^, $, \b).
+	sourceHasMatch := builder.containsMatchState(currentNFAStates)
+
+	// Compute next NFA state set via move operation WITH word context.
+	// Leftmost-first (Rust determinize::next mod.rs:284):
+	// When source has NFA match AND BreakAtMatch is enabled, stop iterating
+	// at the first Match state. States after Match (prefix restarts) are not
+	// processed, causing the DFA to reach dead state with the committed match.
+	// BreakAtMatch is disabled for reverse DFAs to allow finding leftmost start.
+	breakAtMatch := sourceHasMatch && d.config.BreakAtMatch
+	return builder.moveWithWordContextBreak(currentNFAStates, b, isFromWord, breakAtMatch), sourceHasMatch
 }
 
 // containsNFAMatch checks if any of the given NFA state IDs is a match state.
@@ -2101,8 +2110,7 @@ func (d *DFA) IsMatchReverse(cache *DFACache, haystack []byte, start, end int) b
 
 	currentState := d.getStartStateForReverse(cache, haystack, end)
 	if currentState == nil {
-		_, _, matched := d.pikevm.Search(haystack[start:end])
-		return matched
+		return d.nfaFallbackReverse(haystack, start, end) >= 0
 	}
 
 	// With 1-byte match delay, start states are never match states.
@@ -2129,16 +2137,14 @@ func (d *DFA) IsMatchReverse(cache *DFACache, haystack []byte, start, end int) b
 		case InvalidState:
 			currentState = cache.getState(sid)
 			if currentState == nil {
-				_, _, matched := d.pikevm.Search(haystack[start:end])
-				return matched
+				return d.nfaFallbackReverse(haystack, start, end) >= 0
 			}
 			nextState, err := d.determinize(cache, currentState, b)
 			if err != nil {
 				if isCacheCleared(err) {
 					currentState = d.getStartStateForReverse(cache, haystack, at+1)
 					if currentState == nil {
-						_, _, matched := d.pikevm.Search(haystack[start:end])
-						return matched
+						return d.nfaFallbackReverse(haystack, start, end) >= 0
 					}
 					sid = currentState.id
 					ft = cache.flatTrans
@@ -2146,8 +2152,7 @@ func (d *DFA) IsMatchReverse(cache *DFACache, haystack []byte, start, end int) b
 					at++ // Will be decremented by for-loop
 					continue
 				}
-				_, _, matched := d.pikevm.Search(haystack[start:end])
-				return matched
+				return d.nfaFallbackReverse(haystack, start, end) >= 0
 			}
 			if nextState == nil {
 				return false
@@ -2220,11 +2225,30 @@ func (d *DFA) getStartStateForReverse(cache *DFACache, haystack []byte, end int)
 }
 
 // nfaFallbackReverse handles NFA fallback for reverse search.
+//
+// The PikeVM can only scan forwards, which is of no use for the reversed NFA of a
+// reverse DFA. Instead run the same subset construction as the DFA (nfaStep), from
+// end-1 down to start, without caching the states: same answers, O(n*m) time.
 func (d *DFA) nfaFallbackReverse(haystack []byte, start, end int) int {
-	// For reverse fallback, we need to search the region and find match start
-	matchStart, _, matched := d.pikevm.Search(haystack[start:end])
-	if !matched {
-		return -1
+	builder := NewBuilderWithWordBoundary(d.nfa, d.config, d.hasWordBoundary)
+	kind := StartText
+	if end < len(haystack) {
+		kind = d.startByteMap[haystack[end]]
 	}
-	return start + matchStart
+	states := builder.epsilonClosure([]nfa.StateID{d.nfa.StartUnanchored()}, LookSetFromStartKind(kind))
+	isFromWord := kind == StartWord
+
+	lastMatch := -1
+	for at := end - 1; at >= start && len(states) > 0; at-- {
+		next, sourceHasMatch := d.nfaStep(builder, states, isFromWord, haystack[at])
+		if sourceHasMatch {
+			lastMatch = at + 1 // 1-byte match delay, as in SearchReverse
+		}
+		states, isFromWord = next, isWordByte(haystack[at])
+	}
+	// Region start reached with live states: a pending match starts at 'start'.
+	if containsNFAMatch(d.nfa, states) {
+		lastMatch = start
+	}
+	return lastMatch
 }
